@@ -159,8 +159,14 @@ def gen(rng):
                 s["pipes"][int(rng.integers(0, len(s["pipes"])))]["in_service"] = False
             elif c < 0.7 and s["ext_grids"]:
                 s["ext_grids"][int(rng.integers(0, len(s["ext_grids"])))]["in_service"] = False
-            elif c < 0.85 and s["flow_controls"]:
+            elif c < 0.78 and s["flow_controls"]:
                 s["flow_controls"][0]["control_active"] = not s["flow_controls"][0]["control_active"]
+            elif c < 0.9:
+                # any special branch out of service while both its junctions may stay supplied through other paths
+                cand = [(t, i) for t in ("flow_controls", "pumps", "compressors", "press_controls") for i in range(len(s[t]))]
+                if cand:
+                    t, i = cand[int(rng.integers(0, len(cand)))]
+                    s[t][i]["in_service"] = False
             elif len(s["junctions"]) > 2:
                 s["junctions"][int(rng.integers(1, len(s["junctions"])))]["in_service"] = False
         netgen.fix_service_consistency(s)
